@@ -883,7 +883,7 @@ def sample_value(c, k, other_ids):
     if t == 'decimal':
         return decimal.Decimal(k)
     if t == 'enum':
-        vals = c['kind'][1]
+        vals = [v for v in c['kind'][1] if v is not None] or [None]
         return vals[k % len(vals)]
     if t == 'blob':
         return b'\x00\x01bin' + bytes([k])
@@ -1368,3 +1368,370 @@ def coq_case(c, o):
         return '(CEvo %s %s %s %s %s)' % (cdecl(c['decl'], ctx), clist(keep, cstr), clist(rows0, lambda r: clist(r, cz)),
                                           clist(c['ops'], cop), clist(o['steps'], cstep))
     raise ValueError(k)
+
+
+# ================================================================= oracle: the property judged on the implementation
+ESCAPERS = set('\\\0\b\n\r\t')
+
+
+def malformed_decl(decl):
+    for c in decl['cols']:
+        k = c['kind']
+        if k[0] in ('string', 'unicode') and not k[1] and k[2] is True:
+            return True
+        if k[0] == 'enum' and (not k[1] or all(v is None for v in k[1])):
+            return True
+    return False
+
+
+def has_enum(decl):
+    return any(c['kind'][0] == 'enum' for c in decl['cols'])
+
+
+def mysql_only_int_opts(decl):
+    return any(c['kind'][0] == 'int' and (c['kind'][2] or 0) >= 1 and (c['kind'][3] or c['kind'][4]) for c in decl['cols'])
+
+
+def enum_escapes(decl):
+    return any(c['kind'][0] == 'enum' and any(v is not None and set(v) & ESCAPERS for v in c['kind'][1])
+               for c in decl['cols'])
+
+
+def expected_cols(decl):
+    return [[spec_idname(decl), True, True, True]] + \
+           [[spec_dbname(decl, c), spec_notnull(c), spec_unique(c), False] for c in decl['cols']]
+
+
+def style_domain(s):
+    """the strings on which underToMixed(mixedToUnder(s)) == s is claimed (C14_style_roundtrip)"""
+    if not s or not all(ord(ch) < 128 for ch in s):
+        return False
+    core = s[:-2] if s.endswith('ID') else s
+    if not core or '_' in core or '\n' in core or ('A' <= core[0] <= 'Z'):
+        return False
+    run = 0
+    for ch in core:
+        run = run + 1 if 'A' <= ch <= 'Z' else 0
+        if run > 2:
+            return False
+    if not s.endswith('ID') and core.endswith('Id'):
+        return False
+    if s.endswith('ID') and 'A' <= core[-1] <= 'Z':
+        # the capitals before the suffix and the suffix itself form one run
+        k = 0
+        for ch in reversed(core):
+            if 'A' <= ch <= 'Z':
+                k += 1
+            else:
+                break
+        if k > 2:
+            return False
+    return True
+
+
+def oracle_ddl(c, o):
+    decl = c['decl']
+    fails = []
+    if malformed_decl(decl):
+        return None
+    if 'class_error' in o:
+        return {'failures': [{'kind': 'class_refused', 'error': o['class_error']}]}
+    exp = expected_cols(decl)
+    table = spec_table(decl)
+    names = o['names']
+    if names['table'] != table or names['idName'] != exp[0][0] or [p[1] for p in names['cols']] != [e[0] for e in exp[1:]]:
+        fails.append({'kind': 'names', 'expected': [table] + [e[0] for e in exp], 'actual': names})
+    for d in DIALECTS:
+        v = o['sql'][d]
+        if 'error' in v:
+            if d == 'maxdb' and has_enum(decl):
+                continue        # documented: "Enum type is not supported on MAX DB"
+            fails.append({'kind': 'render_error', 'dialect': d, 'error': v['error']})
+            continue
+        sk = py_read_ddl(v['stmts'][0]) if v['stmts'] else None
+        if sk is None:
+            fails.append({'kind': 'unreadable', 'dialect': d, 'text': v['text'][:300]})
+            continue
+        if sk['table'] != table or sk['cols'] != exp:
+            diff = [[a, b] for a, b in zip(sk['cols'], exp) if a != b]
+            if len(sk['cols']) != len(exp):
+                diff.append(['length', len(sk['cols']), len(exp)])
+            fails.append({'kind': 'skeleton', 'dialect': d, 'diff(actual,expected)': diff, 'table': sk['table']})
+        if d != 'firebird':
+            fks = list(sk['fks'])
+            bad = False
+            for ct in v['ctoks']:
+                r = py_read_alter_fk(ct)
+                if r is None:
+                    bad = True
+                else:
+                    fks.append(r)
+            want = spec_fks(c)
+            if bad or fks != want:
+                fails.append({'kind': 'fk', 'dialect': d, 'actual': fks, 'expected': want})
+        want_ix = spec_indexes(decl, d)
+        got_ix = [py_read_index(t) for t in v['stmts'][len(v['stmts']) - len(want_ix):]] if want_ix else []
+        if got_ix != want_ix:
+            fails.append({'kind': 'index', 'dialect': d, 'actual': got_ix, 'expected': want_ix})
+    x = o.get('exec')
+    if x is not None and 'others_error' not in x and not mysql_only_int_opts(decl):
+        if not x.get('created'):
+            fails.append({'kind': 'sqlite_create_failed', 'error': x.get('error'), 'msg': x.get('msg')})
+        else:
+            if x['cols'] != exp:
+                fails.append({'kind': 'pragma_cols', 'actual': x['cols'], 'expected': exp})
+            if x['fks'] != spec_fks(c):
+                fails.append({'kind': 'pragma_fks', 'actual': x['fks'], 'expected': spec_fks(c)})
+            if x['indexes'] != sorted(spec_indexes(decl, 'sqlite'), key=lambda t: t[1]):
+                fails.append({'kind': 'pragma_indexes', 'actual': x['indexes'], 'expected': spec_indexes(decl, 'sqlite')})
+            if x.get('readback') is not True:
+                fails.append({'kind': 'readback', 'actual': x.get('readback')})
+            elif not x.get('auto_id'):
+                fails.append({'kind': 'auto_id'})
+            if x.get('idem_error') or x.get('idem_create') is not True or x.get('idem_drop') is not True:
+                fails.append({'kind': 'idempotence', 'create': x.get('idem_create'), 'drop': x.get('idem_drop'),
+                              'error': x.get('idem_error')})
+    return {'failures': fails} if fails else None
+
+
+def _related(decl):
+    return [j for j in decl['joins'] if j['kind'] == 'related' and j['create']]
+
+
+def oracle_join(c, o):
+    fails = []
+    a, b = c['a'], c['b']
+    want = set()
+    rel_all = [j for d in (a, b) for j in d['joins'] if j['kind'] == 'related']
+    if not all(j['create'] for j in rel_all):
+        return None         # createRelatedTable=False somewhere: the developer creates the table
+    for d, other in ((a, b), (b, a)):
+        for j in _related(d):
+            want.add(j['inter'] or '_'.join(sorted([spec_table(d), spec_table(other)])))
+    made = o['a_creates'] + o['b_creates']
+    for t in want:
+        if made.count(t) != 1:
+            fails.append({'kind': 'link_table_count', 'table': t, 'created_by': {'a': o['a_creates'], 'b': o['b_creates']}})
+        if t not in o['tables']:
+            fails.append({'kind': 'link_table_missing', 'table': t, 'tables': o['tables']})
+    if any(o['errors']):
+        fails.append({'kind': 'create_error', 'errors': o['errors']})
+    rel = [j for d in (a, b) for j in d['joins'] if j['kind'] == 'related']
+    for j, ok in zip(rel, o['usable']):
+        if j['create'] and not ok:
+            fails.append({'kind': 'join_unusable', 'join': j['attr']})
+    return {'failures': fails} if fails else None
+
+
+def oracle_evo(c, o):
+    decl = c['decl']
+    keep, rows0 = o['before']
+    idn = o['idName']
+    declared_ix = [o['table'] + '_' + ix['name'] for ix in decl['indexes']]
+    ix_cols = {o['table'] + '_' + ix['name']: [n for n, _ in ix['cols']] for ix in decl['indexes']}
+    for k, (op, st) in enumerate(zip(c['ops'], o['steps'])):
+        cls_cols = [idn] + [p[1] for p in st['class_cols']]
+        if st['table_cols'] != cls_cols:
+            return {'failures': [{'kind': 'out_of_step', 'step': k, 'op': op[0], 'error': st['error'],
+                                  'class': cls_cols, 'table': st['table_cols']}]}
+        if st['error'] is not None:
+            return {'failures': [{'kind': 'evo_error', 'step': k, 'op': op[0], 'error': st['error']}]}
+        tcols = st['table_cols']
+        kept = [x for x in keep if x in tcols]
+        now = [[r[tcols.index(x)] for x in kept] for r in st['rows']]
+        was = [[r[keep.index(x)] for x in kept] for r in rows0]
+        if now != was:
+            return {'failures': [{'kind': 'data_changed', 'step': k, 'columns': kept, 'before': was, 'after': now}]}
+        live_names = [p[0] for p in st['class_cols']]
+        for ixn in declared_ix:
+            if all(n in live_names for n in ix_cols[ixn]) and ixn not in st['indexes']:
+                return {'failures': [{'kind': 'index_lost', 'step': k, 'op': op[0], 'index': ixn}]}
+        if 'child_fk' in st and st['child_fk'] != [o['table']]:
+            return {'failures': [{'kind': 'child_fk_repointed', 'step': k, 'op': op[0], 'target': st['child_fk']}]}
+        if not st['select_ok']:
+            return {'failures': [{'kind': 'select_failed', 'step': k}]}
+    return None
+
+
+def oracle_idem(c, o):
+    fails = []
+    prev = None
+    ta, tb = spec_table(c['a']), spec_table(c['b'])
+    for k, (op, st) in enumerate(zip(c['ops'], o['steps'])):
+        t = ta if op[1] == 'a' else tb
+        state = (st['tables'], st['indexes'])
+        if op[2]:
+            if st['error']:
+                fails.append({'kind': 'if_flag_error', 'step': k, 'op': op})
+            if op[0] == 'create' and t not in st['tables']:
+                fails.append({'kind': 'not_created', 'step': k})
+            if op[0] == 'drop' and t in st['tables']:
+                fails.append({'kind': 'not_dropped', 'step': k})
+            if k > 0 and c['ops'][k - 1] == op and prev != state and not o['steps'][k - 1]['error']:
+                fails.append({'kind': 'second_call_changed_state', 'step': k, 'before': prev, 'after': state})
+        prev = state
+    return {'failures': fails} if fails else None
+
+
+def oracle_style(c, o):
+    s = c['s']
+    if style_domain(s) and o['round'] != s:
+        return {'failures': [{'kind': 'style_roundtrip', 's': s, 'mixedToUnder': o['m2u'], 'back': o['round']}]}
+    return None
+
+
+def oracle(c, o):
+    return {'ddl': oracle_ddl, 'join': oracle_join, 'evo': oracle_evo, 'idem': oracle_idem, 'style': oracle_style}[c['k']](c, o)
+
+
+# ---------- known findings: each classifier accepts exactly its trigger class
+def _fk_cols(decl):
+    return [c for c in decl['cols'] if c['kind'][0] == 'fk']
+
+
+def classify_one(c, o, f):
+    k = f['kind']
+    if c['k'] == 'ddl':
+        decl = c['decl']
+        exp = expected_cols(decl)
+        if k == 'skeleton':
+            d = f['dialect']
+            diff = f['diff(actual,expected)']
+            if any(x[0] == 'length' for x in diff) or f['table'] != spec_table(decl):
+                return None
+            if d in ('mssql', 'sybase') and diff == [[[exp[0][0], True, True, False], exp[0]]]:
+                return 'id_not_primary_key_mssql_sybase'
+            if d == 'mysql':
+                forced = {spec_dbname(decl, col) for col in decl['cols']
+                          if col['kind'][0] == 'enum' and None not in col['kind'][1] and not spec_notnull(col)}
+                if diff and all(a[0] in forced and a[0] == b[0] and a[1] and not b[1] and a[2:] == b[2:] for a, b in diff):
+                    return 'mysql_enum_forced_not_null'
+            if d == 'maxdb':
+                fks = {spec_dbname(decl, col) for col in _fk_cols(decl) if spec_notnull(col) or spec_unique(col)}
+                if diff and all(a[0] in fks and a[0] == b[0] and a[1:] == [False, False, False] for a, b in diff):
+                    return 'maxdb_fk_drops_not_null_unique'
+            return None
+        if k == 'fk' and f['dialect'] in ('sybase', 'mssql', 'maxdb'):
+            if [x[:3] + [None] for x in f['expected']] == f['actual'] and any(x[3] for x in f['expected']):
+                return 'fk_action_not_rendered_sybase_mssql_maxdb'
+            return None
+        if k == 'sqlite_create_failed' and enum_escapes(decl) and 'syntax error' in (f.get('msg') or ''):
+            return 'enum_escape_string_rejected_sqlite'
+        return None
+    if c['k'] == 'join':
+        a, b = c['a'], c['b']
+        # a many-to-many join declared only on the class whose name sorts last
+        for d, other in ((a, b), (b, a)):
+            if _related(d) and not [j for j in other['joins'] if j['kind'] == 'related'] and d['cls'] > other['cls']:
+                if k in ('link_table_count', 'link_table_missing', 'join_unusable'):
+                    return 'one_sided_join_never_created'
+        return None
+    if c['k'] == 'evo':
+        op = c['ops'][f['step']]
+        if k == 'out_of_step' and f['op'] == 'add' and f['error'] == 'OperationalError' \
+                and f['class'][:-1] == f['table']:
+            # the engine refused the ALTER TABLE (whatever its reason); the class kept the column
+            return 'add_column_rejected_class_changed'
+        if k == 'index_lost' and f['op'] == 'del':
+            return 'del_column_drops_indexes_sqlite'
+        if k == 'child_fk_repointed' and f['op'] == 'del' and f['target'] == [o['table'] + '_ORIGINAL']:
+            return 'del_column_repoints_child_fk_sqlite'
+        return None
+    return None
+
+
+PRIORITY = ['enum_escape_string_rejected_sqlite', 'one_sided_join_never_created', 'add_column_rejected_class_changed',
+            'del_column_drops_indexes_sqlite', 'del_column_repoints_child_fk_sqlite',
+            'maxdb_fk_drops_not_null_unique', 'mysql_enum_forced_not_null',
+            'fk_action_not_rendered_sybase_mssql_maxdb', 'id_not_primary_key_mssql_sybase']
+
+
+def classify(c, o, failure):
+    ids = []
+    for f in failure.get('failures', []):
+        i = classify_one(c, o, f)
+        if i is None:
+            return None
+        ids.append(i)
+    for p in PRIORITY:
+        if p in ids:
+            return p
+    return None
+
+
+# ================================================================= evidence helpers
+def nontrivial(c, o):
+    k = c['k']
+    if k == 'ddl':
+        d = c['decl']
+        return bool(d['indexes'] or d['joins'] or d['table'] or d['idName'] or d['style'] != ['default', False] or any(
+            col['notNone'] or col['unique'] is not None or col['alternateID'] or col['defaultSQL'] or col['dbName']
+            or col['kind'][0] in ('fk', 'enum') for col in d['cols']))
+    if k == 'join':
+        return bool(c['a']['joins'] or c['b']['joins'])
+    if k == 'evo':
+        return bool(c['ops'])
+    if k == 'idem':
+        return len(c['ops']) >= 2
+    return o.get('m2u') != c['s'] or o.get('u2m') != c['s']
+
+
+def key(c):
+    return c
+
+
+def distribution(cases, obs):
+    d = {'by_stream': {}, 'column_kinds': {}, 'options': {}, 'sqlite_created': 0, 'sqlite_rejected': 0,
+         'class_refused': 0, 'render_refused_by_dialect': {}, 'evo_ops': {}, 'evo_db_errors': 0,
+         'join_shapes': {}, 'style_in_domain': 0, 'styles': {}, 'fk_cascade': {}}
+    for c, o in zip(cases, obs):
+        k = c['k']
+        d['by_stream'][k] = d['by_stream'].get(k, 0) + 1
+        if not isinstance(o, dict) or 'crash' in o:
+            continue
+        if k == 'ddl':
+            dc = c['decl']
+            d['styles'][str(dc['style'])] = d['styles'].get(str(dc['style']), 0) + 1
+            for col in dc['cols']:
+                kk = col['kind'][0]
+                d['column_kinds'][kk] = d['column_kinds'].get(kk, 0) + 1
+                if kk == 'fk':
+                    d['fk_cascade'][str(col['kind'][2])] = d['fk_cascade'].get(str(col['kind'][2]), 0) + 1
+                for opt in ('notNone', 'alternateID', 'default'):
+                    if col[opt]:
+                        d['options'][opt] = d['options'].get(opt, 0) + 1
+                if col['unique'] is not None:
+                    d['options']['unique=%s' % col['unique']] = d['options'].get('unique=%s' % col['unique'], 0) + 1
+                if col['defaultSQL'] is not None:
+                    d['options']['defaultSQL'] = d['options'].get('defaultSQL', 0) + 1
+                if col['dbName']:
+                    d['options']['dbName'] = d['options'].get('dbName', 0) + 1
+            if 'class_error' in o:
+                d['class_refused'] += 1
+                continue
+            for dl, v in o['sql'].items():
+                if 'error' in v:
+                    d['render_refused_by_dialect'][dl] = d['render_refused_by_dialect'].get(dl, 0) + 1
+            x = o.get('exec') or {}
+            if x.get('created') is True:
+                d['sqlite_created'] += 1
+            elif x.get('created') is False:
+                d['sqlite_rejected'] += 1
+        elif k == 'evo':
+            for op, st in zip(c['ops'], o['steps']):
+                d['evo_ops'][op[0]] = d['evo_ops'].get(op[0], 0) + 1
+                if st['error']:
+                    d['evo_db_errors'] += 1
+        elif k == 'join':
+            sh = '%d+%d' % (len(c['a']['joins']), len(c['b']['joins']))
+            d['join_shapes'][sh] = d['join_shapes'].get(sh, 0) + 1
+        elif k == 'style':
+            if style_domain(c['s']):
+                d['style_in_domain'] += 1
+    return d
+
+
+def explain(c, o):
+    if c['k'] == 'ddl' and isinstance(o, dict) and 'sql' in o:
+        return 'sqlite DDL: %r; exec: %r' % (o['sql']['sqlite'].get('text'), o.get('exec'))
+    return 'observed %r' % (o,)
